@@ -180,3 +180,16 @@ package level
 //@   ensures ok && idx >= old(len(l.values)) ==> all(j, 0, old(len(l.values)), old(l.values[j]) != v)   [@value]
 //@   ensures !ok ==> idx == l.bits + 1 && len(l.values) == old(len(l.values)) && len(l.values) == cap(l.values) && all(j, 0, len(l.values), l.values[j] != v)   [@value]
 //@   modifies l.values, l.values[0:cap(l.values)]                                    [@frame]
+
+// hashPalette: ids is the inverse of values
+//@ define hpwf(h) = !isnil(h.ids) && len(h.values) <= cap(h.values) && all(k, 0, len(h.values), has(h.ids, h.values[k]) && h.ids[h.values[k]] == k) && all(u, -4611686018427387904, 4611686018427387904, has(h.ids, u) ==> 0 <= h.ids[u] && h.ids[u] < len(h.values) && int(h.values[h.ids[u]]) == u)
+
+//@ func (*hashPalette).id(h; v) (idx, ok)
+//@   requires hpwf(h) && -4611686018427387904 <= int(v) && int(v) < 4611686018427387904
+//@   hint u = int(v)
+//@   ensures ok ==> 0 <= idx && idx < len(h.values) && h.values[idx] == v            [@value]
+//@   ensures all(k, 0, old(len(h.values)), h.values[k] == old(h.values[k]))         [@frame]
+//@   ensures len(h.values) >= old(len(h.values)) && len(h.values) <= old(len(h.values)) + 1 && cap(h.values) == old(cap(h.values)) && h.bits == old(h.bits)   [@frame]
+//@   ensures !ok ==> idx == h.bits + 1 && len(h.values) == old(len(h.values)) && len(h.values) == cap(h.values)   [@value]
+//@   ensures hpwf(h)                                                                 [@wf]
+//@   modifies h.values, h.values[0:cap(h.values)], map(h.ids)                        [@frame]
